@@ -1,16 +1,23 @@
 """C03 - concurrent logging keeps every line intact, exactly once, in per-thread order."""
 
-CLAIM = ("Proved in Coq: the executable check that is applied to the implementation's output accepts only interleavings of the threads' "
-         "line sequences - every line exactly once, intact, each thread's lines in their order (C03_merge_check_sound, "
+CLAIM = ("Proved in Coq: the executable check that is applied to the implementation's output accepts only interleavings of the "
+         "threads' line sequences - every line exactly once, intact, each thread's lines in their order (C03_merge_check_sound, "
          "C03_merge_length); for the synchronous file writer, whose state mutex serialises the threads' write_buffer calls, any "
-         "schedule is a sequential history of an interleaving m, and for Numbers naming, every criterion and buffer capacity the files "
-         "then hold exactly concat m (C03_sync_numbers, from C01). Partial: the atomicity granularity (one critical section = one step; "
-         "crossbeam channel = FIFO; thread-local buffers private) is an assumption about std::sync::Mutex, thread_local! and crossbeam "
-         "that the model cannot exhibit; it is stress-validated: 2-8 real threads log concurrently through Direct, Buffer*, Async "
-         "(small pool and message capacity) to files under size rotation with every naming scheme and to stdout/stderr, line lengths "
-         "around the buffer/message capacities, and the merge check is applied to the output read back in reader order. That part is "
-         "testing in support of the assumption, not proof.")
-THEOREMS = ["C03_merge_check_sound", "C03_merge_length", "C03_sync_numbers"]
+         'schedule is a sequential history of an interleaving m, and for every one of the four namings, every criterion and '
+         'buffer capacity the files then hold exactly concat m (C03_sync_numbers, C03_sync_numbersdirect, C03_sync_timestamps, '
+         'C03_sync_timestampsdirect, from C01). ASYNCHRONOUS writer: for any threads and any schedule of sends into the FIFO '
+         'channel and consumptions by the writer thread - which may lag arbitrarily - the final world is that of the sequential '
+         "run of the send order m (for EVERY configuration), m is an interleaving of the threads' sequences and a permutation of "
+         'all records, and the files hold exactly concat m under each of the four namings (C03_async_*, C03_sched_*; '
+         'Flw/AsyncMerge.v). Note from that proof: the executable merge check is sound but not complete - it can reject a '
+         "genuine interleaving when different threads log identical lines; the harness's threads log pairwise different lines. "
+         'Partial: the atomicity granularity (one critical section = one step; crossbeam channel = FIFO; thread-local buffers '
+         'private) is an assumption about std::sync::Mutex, thread_local! and crossbeam that the model cannot exhibit; it is '
+         'stress-validated: 2-8 real threads log concurrently through Direct, Buffer*, Async (small pool and message capacity) '
+         'to files under size rotation with every naming scheme and to stdout/stderr, line lengths around the buffer/message '
+         'capacities, and the merge check is applied to the output read back in reader order. That part is testing in support of '
+         'the assumption, not proof. ')
+THEOREMS = ["C03_merge_check_sound", "C03_merge_length", "C03_sync_numbers", "C03_sync_numbersdirect", "C03_sync_timestampsdirect", "C03_sync_timestamps"]
 TRUSTED = ["assumed, stress-tested: std::sync::Mutex critical sections, crossbeam_channel FIFO order, ArrayQueue pool, "
            "io::stdout()/stderr() line locking"]
 ASSUMPTIONS = ["real thread interleavings are sampled by the OS scheduler on 16 cores, not enumerated"]
